@@ -297,7 +297,7 @@ fn shard_for(len: usize, data: Option<&Vec<u8>>) -> Vec<u8> {
     match data {
         Some(d) if d.len() == len => d.clone(),
         _ => {
-            if len > (1 << 20) {
+            if len > (1 << 23) {
                 panic!("refusing to build a {len}-byte shard");
             }
             vec![0x5Au8; len]
